@@ -34,6 +34,11 @@ var solvers = []solverDef{
 	{"cvc5-1.0", "cvc5", func(f string, t int) []string {
 		return []string{"cvc5", "--strings-exp", fmt.Sprintf("--tlimit=%d", t*1000), "--produce-models", f}
 	}},
+	// the same solver with enumerative quantifier instantiation: finds the witness of
+	// exists-over-list obligations that E-matching alone misses
+	{"cvc5-1.0 --enum-inst", "cvc5", func(f string, t int) []string {
+		return []string{"cvc5", "--strings-exp", "--enum-inst", fmt.Sprintf("--tlimit=%d", t*1000), "--produce-models", f}
+	}},
 }
 
 func runSolver(ctx context.Context, sd solverDef, file string, timeout int) (status, out string, secs float64) {
@@ -158,6 +163,31 @@ func solveAll(obls []*Obligation, dir string, timeout, workers int) []*SolveResu
 				t = ct
 			}
 			out[i] = solve(o, dir, t)
+		}(i, o)
+	}
+	wg.Wait()
+	// second chance for obligations no solver decided: a machine under load can make a 2 s proof miss
+	// its deadline; retry them a few at a time with three times the budget
+	sem2 := make(chan struct{}, 2)
+	for i, o := range obls {
+		if out[i].Status != "undecided" && out[i].Status != "cover-unknown" {
+			continue
+		}
+		if strings.Contains(out[i].Detail, "error") {
+			continue
+		}
+		wg.Add(1)
+		sem2 <- struct{}{}
+		go func(i int, o *Obligation) {
+			defer wg.Done()
+			defer func() { <-sem2 }()
+			t := timeout
+			if ct := clauseTimeouts[o.Label]; ct > t {
+				t = ct
+			}
+			r := solve(o, dir, 3*t)
+			r.Detail = strings.TrimSpace(r.Detail + " (decided on the second attempt with a tripled time limit)")
+			out[i] = r
 		}(i, o)
 	}
 	wg.Wait()
